@@ -298,6 +298,87 @@ static unsigned long long sweep_codes(void) {
     return n;
 }
 
+/* ---- full 16-bit value sweeps: one register takes every value 0..65535 from several base states ------------- */
+static void viol_plain(const char * sig, const char * fmt, ...) {
+    char msg[512]; va_list ap;
+    va_start(ap, fmt); vsnprintf(msg, sizeof msg, fmt, ap); va_end(ap);
+    mc_viol(sig, "%s", msg);
+}
+static void plain_c11(const char * what, int reg, unsigned v, int base) {
+    uint16_t stb = SCPI_RegGet(&ctx, SCPI_REG_STB), sre = SCPI_RegGet(&ctx, SCPI_REG_SRE);
+    int e5 = (SCPI_RegGet(&ctx, SCPI_REG_ESR) & SCPI_RegGet(&ctx, SCPI_REG_ESE)) != 0, e7 = (SCPI_RegGet(&ctx, SCPI_REG_OPER) & SCPI_RegGet(&ctx, SCPI_REG_OPERE)) != 0;
+    int e3 = (SCPI_RegGet(&ctx, SCPI_REG_QUES) & SCPI_RegGet(&ctx, SCPI_REG_QUESE)) != 0, e2 = SCPI_ErrorCount(&ctx) > 0, e6;
+    const char * bad = NULL;
+    if (((stb & STB_ESR) != 0) != e5) bad = "c11/esb-summary/value-sweep";
+    else if (((stb & STB_OPS) != 0) != e7) bad = "c11/oper-summary/value-sweep";
+    else if (((stb & STB_QES) != 0) != e3) bad = "c11/ques-summary/value-sweep";
+    else if (((stb & STB_QMA) != 0) != e2) bad = "c11/error-available/value-sweep";
+    else { e6 = ((stb & ~STB_SRQ) & sre & 0xff) != 0; if (((stb & STB_SRQ) != 0) != e6) bad = "c11/mss/value-sweep"; }
+    if (bad) viol_plain(bad, "base state %d, %s(%s, 0x%x): STB=0x%x SRE=0x%x ESR=0x%x ESE=0x%x OPER=0x%x OPERE=0x%x QUES=0x%x QUESE=0x%x errors=%d", base, what, regname[reg], v, stb, sre,
+                        SCPI_RegGet(&ctx, SCPI_REG_ESR), SCPI_RegGet(&ctx, SCPI_REG_ESE), SCPI_RegGet(&ctx, SCPI_REG_OPER), SCPI_RegGet(&ctx, SCPI_REG_OPERE), SCPI_RegGet(&ctx, SCPI_REG_QUES), SCPI_RegGet(&ctx, SCPI_REG_QUESE), (int) SCPI_ErrorCount(&ctx));
+}
+static void make_base(int base) {
+    memcpy(&ctx, &ctx0, sizeof ctx); memset(ering, 0, sizeof ering);
+    if (base >= 1) { SCPI_RegSet(&ctx, SCPI_REG_ESE, 0xFFFF); SCPI_RegSet(&ctx, SCPI_REG_OPERE, 0xFFFF); SCPI_RegSet(&ctx, SCPI_REG_QUESE, 0xFFFF); SCPI_RegSet(&ctx, SCPI_REG_SRE, 0xFFFF); }
+    if (base >= 2) { SCPI_RegSet(&ctx, SCPI_REG_OPERC, 0x5555); SCPI_RegSet(&ctx, SCPI_REG_QUESC, 0xAAAA); SCPI_RegSet(&ctx, SCPI_REG_ESR, 0x00A5); SCPI_ErrorPush(&ctx, -900); }
+    if (base == 3) { SCPI_RegSet(&ctx, SCPI_REG_ESE, 0x8000); SCPI_RegSet(&ctx, SCPI_REG_OPERE, 0x0100); SCPI_RegSet(&ctx, SCPI_REG_QUESE, 0x0080); SCPI_RegSet(&ctx, SCPI_REG_SRE, 0x00A8); }
+}
+static unsigned long long sweep_values(void) {
+    static const int wr[] = {SCPI_REG_ESR, SCPI_REG_ESE, SCPI_REG_OPER, SCPI_REG_OPERE, SCPI_REG_OPERC, SCPI_REG_QUES, SCPI_REG_QUESE, SCPI_REG_QUESC, SCPI_REG_SRE};
+    unsigned long long n = 0;
+    int base, i, bit;
+    unsigned v;
+    for (base = 0; base < 4; base++) for (i = 0; i < 9; i++) for (v = 0; v < 65536; v++) {
+        int r = wr[i], ev = r == SCPI_REG_OPERC ? SCPI_REG_OPER : r == SCPI_REG_QUESC ? SCPI_REG_QUES : -1;
+        uint16_t c0, e0;
+        if (!MC_CASE()) continue;
+        mc_case_tag = "value-sweep"; mc_case_i[0] = base; mc_case_i[1] = r; mc_case_i[2] = v;
+        make_base(base);
+        c0 = SCPI_RegGet(&ctx, (scpi_reg_name_t) r); e0 = ev >= 0 ? SCPI_RegGet(&ctx, (scpi_reg_name_t) ev) : 0;
+        nsrq = 0;
+        SCPI_RegSet(&ctx, (scpi_reg_name_t) r, (scpi_reg_val_t) v);
+        n++;
+        if (do_c11) plain_c11("RegSet", r, v, base);
+        if (do_c12 && ev >= 0) {
+            uint16_t rising = (uint16_t) (v & ~c0), e1 = SCPI_RegGet(&ctx, (scpi_reg_name_t) ev);
+            if (e1 != (uint16_t) (e0 | rising)) viol_plain("c12/condition-not-latched/value-sweep", "base state %d, %s 0x%x -> 0x%x: %s = 0x%x, expected 0x%x", base, regname[r], c0, v, regname[ev], e1, (uint16_t) (e0 | rising));
+        }
+        if (v < 16) {        /* single-bit set / clear for every bit */
+            bit = 1 << v;
+            make_base(base); SCPI_RegSetBits(&ctx, (scpi_reg_name_t) r, (scpi_reg_val_t) bit); if (do_c11) plain_c11("RegSetBits", r, (unsigned) bit, base);
+            if (do_c12 && ev >= 0 && !(c0 & bit) && !(SCPI_RegGet(&ctx, (scpi_reg_name_t) ev) & bit)) viol_plain("c12/condition-not-latched/value-sweep", "base state %d, RegSetBits(%s, 0x%x): event bit not latched", base, regname[r], bit);
+            make_base(base); SCPI_RegClearBits(&ctx, (scpi_reg_name_t) r, (scpi_reg_val_t) bit); if (do_c11) plain_c11("RegClearBits", r, (unsigned) bit, base);
+            n += 2;
+        }
+    }
+    return n;
+}
+
+/* ---- a large error queue: the error-available bit follows the number of queued errors beyond 255 entries ------ */
+static unsigned long long big_queue(void) {
+    static scpi_t bc; static char bib[32]; static scpi_error_t * bring;
+    int cap = 300, step, count = 0;
+    unsigned long long n = 0;
+    scpi_error_t e;
+    if (!MC_CASE()) return 0;
+    mc_case_tag = "big-queue";
+    bring = (scpi_error_t *) calloc((size_t) cap, sizeof (scpi_error_t));
+    SCPI_Init(&bc, cmds, &itf, scpi_units_def, "a", "b", "c", "d", bib, sizeof bib, bring, (int16_t) cap);
+    SCPI_RegSet(&bc, SCPI_REG_SRE, STB_QMA);
+    for (step = 0; step < 1400; step++) {
+        int push = step < 280 || (step >= 560 && step < 870);       /* 280 pushes, 280 pops, 310 pushes (overflow at 300), pops until empty */
+        if (push) { SCPI_ErrorPush(&bc, -100 - (step % 50)); if (count < cap) count++; }
+        else { SCPI_ErrorPop(&bc, &e); if (count > 0) count--; }
+        n++;
+        if ((SCPI_ErrorCount(&bc) != count) || (((SCPI_RegGet(&bc, SCPI_REG_STB) & STB_QMA) != 0) != (count > 0)) || (((SCPI_RegGet(&bc, SCPI_REG_STB) & STB_SRQ) != 0) != (count > 0))) {
+            viol_plain("c11/error-available/large-queue", "queue of %d entries, step %d (%s): model count %d, SCPI_ErrorCount %d, STB 0x%x", cap, step, push ? "push" : "pop", count, (int) SCPI_ErrorCount(&bc), SCPI_RegGet(&bc, SCPI_REG_STB));
+            break;
+        }
+    }
+    free(bring);
+    return n;
+}
+
 static void set_bits(int focus, int wide, int narrow) {
     /* focus: -1 = `narrow` bits everywhere; 0..2 = that group gets `wide` bits, the others `narrow` */
     int r;
@@ -372,8 +453,12 @@ int main(int argc, char ** argv) {
         }
     }
 #ifndef MC_FLAVOR_FAST
+    {
+        unsigned long long nv = sweep_values() + (do_c11 ? big_queue() : 0);
+        ncodes += nv;
+        if (mc_shard == 0) mc_sample("value sweep: RegSet(r, v) for each of the nine writable registers r and every v in 0..65535 from 4 base states; single-bit set/clear of every bit; a 300-entry error queue filled and drained");
+    }
     if (do_c12) {
-        ncodes = sweep_codes();
         if (mc_shard == 0) mc_sample("code sweep: ErrorPush(c) for every c in -32768..32767 on ESR in {0, ~class, 0xff}");
     }
 #endif
